@@ -3,6 +3,7 @@ package scen
 import (
 	"bytes"
 	"encoding/json"
+	"errors"
 	"fmt"
 	"github.com/dgraph-io/badger"
 	"math/rand/v2"
@@ -35,6 +36,8 @@ type IdxMut struct {
 	N    string `json:"n,omitempty"`
 	V    int    `json:"v,omitempty"`
 	Cont bool   `json:"cont,omitempty"` // same write transaction as the previous mutation (same id)
+	// CommitErr: the commit of this mutation's value is refused (disk error)
+	CommitErr bool `json:"commit_err,omitempty"`
 }
 
 // IdxQuery is one generated query.
@@ -100,6 +103,7 @@ func (IndexScenario) GenCase(r *rand.Rand, prop string) interface{} {
 				// several mutations inside one write transaction
 				m.ID, m.Cont = muts[len(muts)-1].ID, true
 			}
+			m.CommitErr = chance(r, 6)
 			muts = append(muts, m)
 		}
 		c.Mutators = append(c.Mutators, muts)
@@ -346,6 +350,21 @@ func (IndexScenario) Execute(sim *sched.Sim, ci interface{}, prop string, race b
 	badgerstore.VerifTaskCapacity = 0
 	ir.qs.OnQueryChange(func(qc store.QueryChange) { ir.onQueryChange(qc) })
 
+	// injected disk errors: the commit of a flagged mutation is refused; the
+	// mutation then must leave no trace (no change callback, no index update)
+	failCommit := make([]bool, len(c.Mutators))
+	commitErrs := 0
+	badger.VerifCommitFault = func() error {
+		if t := sim.Current(); t != nil && strings.HasPrefix(t.Name, "mut") {
+			if mi, err := strconv.Atoi(t.Name[3:]); err == nil && mi >= 1 && mi <= len(failCommit) && failCommit[mi-1] {
+				failCommit[mi-1] = false
+				commitErrs++
+				return errors.New("simulated disk error at commit")
+			}
+		}
+		return nil
+	}
+	defer func() { badger.VerifCommitFault = nil }()
 	var muts []*sched.Task
 	for mi := range c.Mutators {
 		mi := mi
@@ -360,6 +379,7 @@ func (IndexScenario) Execute(sim *sched.Sim, ci interface{}, prop string, race b
 						sim.Yield("mut.intxn", m.ID)
 					}
 					first = false
+					failCommit[mi] = m.CommitErr
 					switch m.Kind {
 					case "create":
 						wt.Create(idxRec{K: m.K, N: m.N, V: m.V})
@@ -368,6 +388,7 @@ func (IndexScenario) Execute(sim *sched.Sim, ci interface{}, prop string, race b
 					case "delete":
 						wt.Delete()
 					}
+					failCommit[mi] = false
 				}
 				wt.Close()
 			}
@@ -492,7 +513,7 @@ func (IndexScenario) Execute(sim *sched.Sim, ci interface{}, prop string, race b
 	for _, p := range sim.Panics {
 		h.Violate("C13", "panic", panicSignature(p), p)
 	}
-	out := &Outcome{Faults: map[string]int{}, Evals: ir.evals + h.Evals}
+	out := &Outcome{Faults: map[string]int{"commit-error": commitErrs}, Evals: ir.evals + h.Evals}
 	nm := 0
 	for _, m := range c.Mutators {
 		nm += len(m)
